@@ -353,6 +353,18 @@ def _impl(case):
                     out.append(enc_float(taus[0]))
             except Exception as e:
                 out.append(errname(e))
+        # derived analyses must not alter what the fitted model reports (refits start from the model's own
+        # parameter array): re-read the fit after a two-sample bootstrap
+        if case["ncomp"] >= 2 and len(case["t"]) <= 400:
+            try:
+                before = (np.array(m.amplitudes, dtype=float).copy(), np.array(m.lifetimes, dtype=float).copy(), float(m.log_likelihood))
+                np.random.seed(1234)
+                m.calculate_bootstrap(iterations=2)
+                after = (np.array(m.amplitudes, dtype=float), np.array(m.lifetimes, dtype=float), float(m.log_likelihood))
+                same = all(np.array_equal(x, y) for x, y in zip(before[:2], after[:2])) and (before[2] == after[2] or (np.isnan(before[2]) and np.isnan(after[2])))
+                case["_bootstrap_changed"] = None if same else f"amplitudes {before[0].tolist()} -> {after[0].tolist()}, lifetimes {before[1].tolist()} -> {after[1].tolist()}"
+            except Exception as e:
+                case["_bootstrap_changed"] = None if isinstance(e, (NotImplementedError,)) else None
         return out
     if k == "constraint":
         params = np.array([float(Fraction(p)) for p in case["params"]], dtype=float)
@@ -691,6 +703,9 @@ def oracle_lik(case, ia):
 
 
 def oracle_fit(case, ia):
+    if case.get("_bootstrap_changed"):
+        return ("fit-is-not-altered-by-derived-analyses: after calculate_bootstrap(iterations=2) the fitted model reports "
+                + case["_bootstrap_changed"] + " while log_likelihood still describes the original fit")
     lay = fit_layout(case)
     n = len(case["t"])
     t, tmin, tmax = np.array(case["t"], dtype=float), arr(case["tmin"], n), arr(case["tmax"], n)
